@@ -5,6 +5,7 @@
 From FMP Require Import Base.Bytes Base.Lts Model.Events Model.Skeleton Model.Props Model.Receiver Model.Writer
      Proofs.ReceiverProofs Proofs.WriterProofs Proofs.SkeletonProofs.
 From FMP Require Import Model.Paths Proofs.PathProofs.
+From FMP Require Import Proofs.ReceiverQuiesce.
 Open Scope Z_scope.
 
 (* serving side: the receive goroutine, every goroutine reporting the end of its handler, and the task loop can move *)
@@ -44,8 +45,28 @@ Proof. eexists. split; [vm_compute; reflexivity | split; vm_compute; reflexivity
    the frame is handed to the encoder only after the registration *)
 Theorem C11_call_paths_unregister : call_paths_unregister = true. Proof. exact paths_call_unregisters. Qed.
 
+(* ---------- everything can exit: bounded quiescence of the serving side after stop ---------- *)
+Theorem C11_can_quiesce_after_stop : forall ls st,
+    run (rstep expected_skeleton) rinit ls = Some st -> stopped st = true ->
+    exists ls' st', (length ls' <= length (endings st) + 3)%nat /\ forallb internal ls' = true /\
+                    run (rstep expected_skeleton) st ls' = Some st' /\ quiet st'.
+Proof. exact recv_can_quiesce_after_stop. Qed.
+(* once quiet nothing of the library moves any more *)
+Theorem C11_quiet_is_final : forall sk st l, quiet st -> internal l = true -> rstep sk st l = None.
+Proof. exact recv_quiet_is_final. Qed.
+(* a handler function that returns after the stop can still exit (the seeded "bare send" variants cannot: refuted above) *)
+Theorem C11_late_handler_can_exit : forall ls st h st1,
+    run (rstep expected_skeleton) rinit ls = Some st -> stopped st = true ->
+    rstep expected_skeleton st (RHandlerRet h) = Some st1 ->
+    exists st2, (rstep expected_skeleton st1 (REndStop h) = Some st2 \/ rstep expected_skeleton st1 (REndRv h) = Some st2) /\
+                (forall x, hfind h (handlers st2) = Some x -> hd_pc x = HGone).
+Proof. exact recv_late_handler_can_exit. Qed.
+
 Print Assumptions C11_serving_side_never_stuck.
 Print Assumptions C11_sending_side_never_stuck.
 Print Assumptions C11_generated_ok.
 Print Assumptions C11_taskend_bare_parks_forever.
 Print Assumptions C11_call_paths_unregister.
+Print Assumptions C11_can_quiesce_after_stop.
+Print Assumptions C11_quiet_is_final.
+Print Assumptions C11_late_handler_can_exit.
